@@ -152,7 +152,10 @@ def run(tier, seed, out, drv, facts):
         variants.append(s)
         if rng.chance(1, 3):
             variants.append("  " + s.replace(" ", rng.choice(["  ", "\t", " \n "])) + rng.choice(["", " ", "\t"]))
-    for s in variants + ["  ", "\t", "T\x0bS", "T,S", "T-S", "_", "_T", "T1", "é"]:
+    # names outside ASCII: the rule is Python's notion of an identifier (the model is ASCII; here the statement is the oracle)
+    exotic = ["é", "cafe\u0301", "a\u00b7b", "T\u00b2", "\u00bd", "x\u2460", "\u0394x", "T \u0394x ...", "... cafe\u0301", "T\u00b2 ...", "\u540d\u524d", "x\u0660", "\u0660x",
+              "T \u00bd", "\uff34", "a\u200db"]
+    for s in variants + ["  ", "\t", "T\x0bS", "T,S", "T-S", "_", "_T", "T1"] + exotic:
         try:
             PyTree[int, s]
             got = True
@@ -162,6 +165,12 @@ def run(tier, seed, out, drv, facts):
             got = "OTHER:" + type(e).__name__
         out.case(("build", s), len(s.split()) > 1, sample={"structure_string": s, "built": got})
         if not s.isascii():
+            ps = s.split()
+            want = bool(ps) and all(p_.isidentifier() or (p_ == "..." and (k_ == 0 or k_ == len(ps) - 1) and len(ps) > 1) for k_, p_ in enumerate(ps)) \
+                and not (len(ps) > 2 and ps[0] == "..." and ps[-1] == "...")
+            if got != want:
+                out.violation(f"validate:unicode:{'accept' if want else 'reject'}", f"PyTree[int, {s!r}] {'was built' if got is True else 'raised ' + str(got)} but its pieces "
+                              f"{'are' if want else 'are not'} all identifiers (str.isidentifier) / a leading or trailing '...'", {"structure_string": s})
             continue
         want = drv.ask({"cmd": "validstruct", "s": s})
         if got != want:
